@@ -6,7 +6,7 @@ HOLD = {}
 PENDING = "not yet claimed: machinery under construction in this session (planned per DESIGN §12)"
 ENGINES = {
  "store": ("harness/src/store.rs + vlib/storeeng.py", "correspondence + oracle engine over the storage traits on both backends"),
- "memlru": ("harness/src/store.rs (backend lru <cache_size> <max_messages_per_group>) + vlib/lrueng.py + lean/Driver/MemLruDrv.lean + lean/MdkVerif/Model/MemLru.lean", "second engine of C10: the memory backend built with small LRU capacities, op histories over key pools larger than the capacities, replayed on Model.MemLru with candidate states for HashMap-order choices; capacity / LRU-exactness / cap-victim / index oracles and within-capacity equality with SQLite"),
+ "memlru": ("harness/src/store.rs (backend lru <cache_size> <max_messages_per_group>) + vlib/lrueng.py + lean/Driver/MemLruDrv.lean + lean/MdkVerif/Model/MemLru.lean", "second engine of C10 and C18: the memory backend built with small LRU capacities, op histories over key pools larger than the capacities, replayed on Model.MemLru with candidate states for HashMap-order choices; capacity / LRU-exactness / cap-victim / index oracles and within-capacity equality with SQLite"),
  "mgr": ("harness/src/mgr.rs + vlib/mgreng.py", "drives the real EpochSnapshotManager over both backends"),
  "leak": ("harness/src/leak.rs + vlib/leakeng.py + tools/gen_leak.py", "tracing capture + Display/Debug rendering of returned values under canary scenarios, mapped onto regenerated Lean tables"),
  "atrest": ("harness/src/atrest.rs + vlib/atresteng.py + lean/Driver/AtrestDrv.lean", "constructor x file-state x keyring-state matrix against a mock keyring-core store, concurrent first opens, canary byte scan, mode bits"),
